@@ -699,9 +699,20 @@ func (ex *Exec) appendOp(st *State, args []Val, x ssa.CallInstruction) Val {
 		r := ex.unknownSlice(st, elemT, "append", 0)
 		return r
 	}
+	n := st.Arith(token.ADD, s.Len, t.Len, "")
+	// enough capacity: append writes into the backing array of s (and the result aliases it)
+	if !s.Nil && s.Cap != nil {
+		if le, k := st.Decide("<=", n, s.Cap); k && le {
+			if arr, ok := ex.arrOf(st, s); ok {
+				at := st.Arith(token.ADD, s.Off, s.Len, "")
+				if ex.arrReplace(st, arr, st.TermOf(at), a2, st.TermOf(t.Len)) {
+					return &SliceV{Obj: s.Obj, Path: s.Path, Off: s.Off, Len: n, Cap: s.Cap}
+				}
+			}
+		}
+	}
 	segs := normSegs(append(append([]Seg{}, a1...), a2...))
 	id := ex.newObj(st, &ArrayV{Elem: elemT, Segs: segs}, nil)
-	n := st.Arith(token.ADD, s.Len, t.Len, "")
 	return &SliceV{Obj: id, Off: mkConst(0, 64, true), Len: n, Cap: n}
 }
 
